@@ -1078,16 +1078,24 @@ def corr_blocks(ctx, rng, ncases, big):
 
 # ------------------------------------------- merge intertwiner correspondence
 def gen_merge_spec(rng, big):
-    n = rng.choice([2, 2, 3])
+    fer = rng.random() < 0.45
+    n = 2 if fer else rng.choice([2, 2, 3])
     nq = rng.choice([1, 2])
-    Qs = distinct_mats(rng, n, nq, herm)
+    Qs = distinct_mats(rng, n, nq, anymat if fer else herm)
     e1 = bos_exp(rng, nq, dims=(None,))
     e2 = bos_exp(rng, nq, dims=(None,))
     e2["vk"], e2["q"] = list(e1["vk"]), e1["q"]
-    rest = [bos_exp(rng, nq) for _ in range(rng.choice([0, 1, 1, 2]))]
+    if fer:
+        units = [ferm_pair(rng, rng.randrange(nq))]
+        if rng.random() < 0.5:
+            units.append([bos_exp(rng, nq)])
+        rng.shuffle(units)
+        rest = [e for u in units for e in u]
+    else:
+        rest = [bos_exp(rng, nq) for _ in range(rng.choice([0, 1, 1, 2]))]
     depth = rng.choice([1, 2, 2, 3] if len(rest) < 2 or big else [1, 2])
-    return {"kind": "bos", "n": n, "H": herm(rng, n), "Qs": Qs, "exps": [e1, e2] + rest,
-            "depth": depth, "odd": False}
+    return {"kind": "mixed" if fer else "bos", "n": n, "H": herm(rng, n), "Qs": Qs,
+            "exps": [e1, e2] + rest, "depth": depth, "odd": fer and rng.random() < 0.5}
 
 
 def corr_merge(ctx, rng, ncases, big):
@@ -1106,10 +1114,10 @@ def corr_merge(ctx, rng, ncases, big):
         ex = clist(sp["exps"], cexp)
         exprs.append(
             "(match sne (heom_dims G %s %s) %s with Some ls => map (fun n => (n, merge_label n, "
-            "merge_weight n)) ls | None => [] end, map (g_col_entries %s %s false) %s, "
+            "merge_weight n)) ls | None => [] end, map (g_col_entries %s %s %s) %s, "
             "(fun e => (e_type G e, e_ck G e, e_vk G e, e_ck2 G e, e_dim G e)) "
             "(combine2 G g0 gadd %s %s))" % (
-                ex, cnat(sp["depth"]), cnat(sp["depth"]), ex, cnat(sp["depth"]),
+                ex, cnat(sp["depth"]), cnat(sp["depth"]), ex, cnat(sp["depth"]), cbool(sp["odd"]),
                 clist(pk, lambda l: clist(l, cnat)), cexp(sp["exps"][0]), cexp(sp["exps"][1])))
     vals = vlib.coq_eval_values("cases_C19_merge", HEADER, exprs, chunk=20)
     dist = ctx.cov.setdefault("input_distribution", {}).setdefault("merge", {})
@@ -1118,7 +1126,8 @@ def corr_merge(ctx, rng, ncases, big):
         N = sp["n"] ** 2
         ctx.count_case(("merge", json.dumps(sp)), nontrivial=sp["depth"] >= 2)
         ctx.cov["traces_validated_against_impl"] += 1
-        key = "%d-exponents-depth-%d" % (len(sp["exps"]), sp["depth"])
+        key = "%s-%d-exponents-depth-%d%s" % (sp["kind"], len(sp["exps"]), sp["depth"],
+                                              "-odd" if sp["odd"] else "")
         dist[key] = dist.get(key, 0) + 1
         diff = None
         try:
@@ -1127,7 +1136,8 @@ def corr_merge(ctx, rng, ncases, big):
             if not objs[0]._can_combine(objs[1], 1e-5, 1e-7):
                 diff = "real _can_combine refuses a pair of equal rate and coupling operator"
             e12 = objs[0]._combine(objs[1])
-            sB = HEOMSolver(qutip.Qobj(I.mat(sp["H"])), Bath([e12] + objs[2:]), sp["depth"])
+            sB = HEOMSolver(qutip.Qobj(I.mat(sp["H"])), Bath([e12] + objs[2:]), sp["depth"],
+                            odd_parity=sp["odd"])
             GB = sB.rhs(0).full()
         except Exception as e:      # noqa
             ctx.violation("corr:merge", {"what": "exception", "error": I.canon_err(e)},
@@ -1348,6 +1358,39 @@ def corr_csr(ctx, rng, ncases):
                           "model and implementation of _from_csr_blocks disagree",
                           {"kind": "csr", "case": case, "impl": list(impl), "model": list(model)},
                           found_input=bool(wrong))
+    # the right-hand side of theorem C19_from_csr_blocks_placement (block_row_entries,
+    # Proofs/C19_csr.v) evaluated in Coq against the rows of the REAL output
+    sub = [(c, r) for c, r in ((c, csr_impl(c)) for c in cases[:40 if len(cases) < 400 else 100])
+           if r[0] == "ok" and c["nb"] * c["bs"] > 0]
+    if sub:
+        hdr2 = HEADER + "From QV Require Import Proofs.C19_csr.\n"
+        exprs2, picks = [], []
+        for c, r in sub:
+            R, rr = rng.randrange(c["nb"]), rng.randrange(c["bs"])
+            picks.append((R, rr))
+
+            def op(o):
+                return "(%s, %s, {| ri := %s; ci_ := %s; dat := %s |})" % (
+                    cnat(o["r"]), cnat(o["c"]), clist(o["op"]["ri"], cnat),
+                    clist(o["op"]["ci"], cnat), clist(o["op"]["dat"], cg))
+            exprs2.append("flat_map (fun b => block_row_entries G %s b %s) (filter (fun b => "
+                          "Nat.eqb (brow G b) %s) %s)" % (cnat(c["bs"]), cnat(rr), cnat(R),
+                                                          "(%s : list (nat * nat * csr G))"
+                                                          % clist(c["ops"], op)))
+        vals2 = vlib.coq_eval_values("cases_C19_csrspec", hdr2, exprs2, chunk=100)
+        for (c, r), (R, rr), v in zip(sub, picks, vals2):
+            spec = [(e[0], list(e[1])) for e in vlib.parse_coq_value(v)]
+            i = R * c["bs"] + rr
+            lo, hi = r[1][i], r[1][i + 1]
+            impl = [(r[2][j], list(r[3][j])) for j in range(lo, hi)]
+            ctx.cov["traces_validated_against_impl"] += 1
+            ctx.count_case(("csr-spec", json.dumps(c), R, rr), nontrivial=bool(impl))
+            if spec != impl:
+                ctx.violation("corr:from_csr_blocks-spec", {"what": "row-entries"},
+                              "row %d of the real _from_csr_blocks output differs from the "
+                              "right-hand side of C19_from_csr_blocks_placement" % i,
+                              {"kind": "csr", "case": c, "R": R, "r": rr, "impl": impl,
+                               "spec": spec}, found_input=True)
     ctx.sample({"csr_case": cases[-1]})
 
 
@@ -1384,9 +1427,9 @@ def run(ctx):
         run_oracles(ctx, r2, 40, big=False, count=False)
 
     vlib.standard_proof_step(ctx, ["Props/C19.vo", "Props/C19_trace.vo", "Props/C19_merge.vo",
-                                   "Props/C19_ferm.vo"],
+                                   "Props/C19_ferm.vo", "Props/C19_csr.vo"],
                              ["Props/C19.v", "Props/C19_trace.v", "Props/C19_merge.v",
-                              "Props/C19_ferm.v"], search)
+                              "Props/C19_ferm.v", "Props/C19_csr.v"], search)
 
     q = ctx.quick
     try:
@@ -1394,15 +1437,15 @@ def run(ctx):
         corr_combine(ctx, rng, 100 if q else 1500)
         corr_blocks(ctx, rng, 40 if q else 500, big=not q)
         corr_csr(ctx, rng, 150 if q else 2500)
-        corr_merge(ctx, rng, 10 if q else 80, big=not q)
+        corr_merge(ctx, rng, 12 if q else 60, big=not q)
         corr_perm(ctx, rng, 8 if q else 60, big=not q)
-        corr_ferm_swap(ctx, rng, 10 if q else 100, big=not q)
+        corr_ferm_swap(ctx, rng, 10 if q else 70, big=not q)
     except RuntimeError as e:
         ctx.violation("corr:C19:model-eval", "coqc", "model evaluation failed",
                       {"log": str(e)[-3000:]}, found_input=False)
     run_fixed_oracles(ctx)
     run_restart_oracles(ctx, rng)
-    run_oracles(ctx, rng, 36 if q else 600, big=not q)
+    run_oracles(ctx, rng, 36 if q else 450, big=not q)
     ctx.cov["explanation"] = (
         "Theorems in Props/C19.v hold for every dims/depth/exponent list/ring; the model "
         "they are about is compared exactly (==, Gaussian integers) with the real "
